@@ -498,7 +498,12 @@ func loadMetadata(bs []byte) (*meta, error) {
 	offset := sectionsStart
 
 	for _, so := range sos {
+		if uint64(len(bs)) < offset || so.Length > uint64(len(bs))-offset {
+			return nil, &LoadMetadataError{fmt.Errorf("bundle: section %q's length %d out-of-range.", so.Name, so.Length), FormatError, fallbackURL}
+		}
 		if _, exists := knownSections[so.Name]; !exists {
+			// Step over the unknown section.
+			offset += so.Length
 			continue
 		}
 		if so.Name == "responses" {
